@@ -811,7 +811,7 @@ func (v *Vertex) toDataAllRec(ctx *OpContext, processed map[*Vertex]*Vertex) *Ve
 	w.ClosedRecursive = false
 	w.ClosedNonRecursive = false
 
-	w.Conjuncts = slices.Clip(v.Conjuncts)
+	w.Conjuncts = slices.Clone(v.Conjuncts)
 
 	for i, c := range w.Conjuncts {
 		if v, _ := c.x.(Value); v != nil {
